@@ -123,11 +123,15 @@ func runC13(c *mon.Ctx) {
 					if c.Quick() && (t.a+t.b+h)%3 != map[string]int{"all": 0, "alternate": 1, "last-only": 2}[warm] && t.a > 3 {
 						continue
 					}
-					c13Sequential(c, A, B, t.p, t.a, t.b, h, long, warm, false)
+					c13Sequential(c, A, B, t.p, t.a, t.b, h, long, warm, "")
 					if t.a > t.p && t.b > t.p && t.b >= t.a {
-						// the forking server answers tile requests with the OTHER branch's tile wherever that
-						// branch has a tile of the same coordinates (it may pick per coordinate)
-						c13Sequential(c, A, B, t.p, t.a, t.b, h, long, warm, true)
+						// the forking server answers tile requests with the OTHER branch's hashes wherever that
+						// branch has the complete subtree (it may pick per hash slot) ...
+						c13Sequential(c, A, B, t.p, t.a, t.b, h, long, warm, "slot")
+						// ... or does so only in the widest copy of a tile it is asked for, and answers requests
+						// for narrower copies of the same tile honestly (two answers for one coordinate)
+						c13Sequential(c, A, B, t.p, t.a, t.b, h, long, warm, "widest-copy")
+						c13Sequential(c, A, B, t.p, t.a, t.b, h, long, warm, "narrower-copies")
 					}
 				}
 			}
@@ -299,8 +303,8 @@ func c13Drain(c *mon.Ctx, caseID string, w *world.World, info map[string]any) {
 	}
 }
 
-func c13Sequential(c *mon.Ctx, A, B *world.Log, p, a, b, h int, long bool, warm string, mixTiles bool) {
-	caseID := fmt.Sprintf("seq:p%d:a%d:b%d:h%d:long=%t:%s:mix=%t", p, a, b, h, long, warm, mixTiles)
+func c13Sequential(c *mon.Ctx, A, B *world.Log, p, a, b, h int, long bool, warm string, mixTiles string) {
+	caseID := fmt.Sprintf("seq:p%d:a%d:b%d:h%d:long=%t:%s:mix=%s", p, a, b, h, long, warm, mixTiles)
 	if !c.Want(caseID) {
 		return
 	}
@@ -315,6 +319,11 @@ func c13Sequential(c *mon.Ctx, A, B *world.Log, p, a, b, h int, long bool, warm 
 			// per hash slot: the other branch's hash wherever that branch has the complete subtree
 			if t, ok := refmerkle.ParseTilePath(path[1:]); ok && t.L >= 0 && refmerkle.TileExists(t, int64(b)) {
 				lvl := uint(t.H * t.L)
+				avail := int64(b)>>lvl - t.N<<uint(t.H) // hashes of this tile that exist in tree b
+				widest := int64(t.W) >= avail || t.W == 1<<uint(t.H)
+				if mixTiles == "widest-copy" && !widest || mixTiles == "narrower-copies" && widest {
+					return world.ServeLog(cur, func() int { return size })(cl, path)
+				}
 				out := make([]byte, 0, 32*t.W)
 				for i := 0; i < t.W; i++ {
 					off := t.N<<uint(t.H) + int64(i)
@@ -360,7 +369,7 @@ func c13Sequential(c *mon.Ctx, A, B *world.Log, p, a, b, h int, long bool, warm 
 	}
 	// phase 2: the server now presents branch B at size b
 	cur, size = B, b
-	mixing = mixTiles
+	mixing = mixTiles != ""
 	order := r.Perm(b)
 	for _, id := range order {
 		if !long {
